@@ -202,6 +202,14 @@ int yield_ex_once_contract(int opt)
 
 /* ------------------------------------------------------------------ the real code */
 #include "myth_sched_func.h"
+/* the same for a sleeper that polls with myth_yield_ex(option): every option but "steal only" gives the runnable threads
+   of the sleeper's OWN run queue the worker; with "steal only" they run only if an idle thief happens to exist */
+int yield_ex_sleep_contract(int opt)
+  __CPROVER_requires(g_need_yield == 1 && "yields exactly once per unsuccessful deadline reading (and only then)")
+  __CPROVER_requires(opt != myth_yield_option_steal_only && "the sleeper's yield lets the other runnable threads of its own worker run in the meantime")
+  __CPROVER_assigns(g_need_yield, g_yield_ever)
+  __CPROVER_ensures(g_need_yield == 0 && g_yield_ever == 1 && __CPROVER_return_value == 0);
+int (*keep_yield_ex_c20)(int) = myth_yield_ex_body;
 
 struct myth_thread TH;
 void * RES;
